@@ -142,6 +142,9 @@ class TokenParser(Parser):
         if not d["type"]:
             d["type"] = "uint32"
 
+        # The words of the type name can be separated by any amount of whitespace
+        d["type"] = " ".join(d["type"].split())
+
         factory = self.cstruct._make_flag if enumtype == "flag" else self.cstruct._make_enum
 
         enum = factory(d["name"] or "", self.cstruct.resolve(d["type"]), values)
